@@ -140,7 +140,7 @@ func frameEvents(d *logDuplex) ([]cev, error) {
 		open := false
 		for pos < len(all) {
 			hd, n, err := vh.OwnDecode(all[pos:])
-			if err != nil || pos+n+int(hd.N) > len(all) {
+			if err != nil || hd.N > uint64(len(all)-pos-n) {
 				return nil, fmt.Errorf("direction %d: incomplete frame at %d", dir, pos)
 			}
 			p := append([]byte(nil), all[pos+n:pos+n+int(hd.N)]...)
@@ -219,7 +219,7 @@ func connSession(variant, id int) (*logDuplex, error) {
 	d, ca, cb := newLogDuplex()
 	ca.seed, cb.seed = id, id*7
 	defer ca.Close()
-	watchdog := time.AfterFunc(30*time.Second, func() { ca.Close() })
+	watchdog := time.AfterFunc(10*time.Second, func() { ca.Close() })
 	defer watchdog.Stop()
 	compressed := variant%2 == 1
 	tag := fmt.Sprintf("v%d", variant)
